@@ -186,6 +186,7 @@ func TestVerifC20Threshold(t *testing.T) {
 	}
 
 	c20Rotation(t, out, rng)
+	c20Verification(t, out, rng)
 }
 
 // ---------------------------------------------------------------------------------------------------
@@ -404,6 +405,88 @@ func c20PathFor(t *testing.T, rc *c20RotCore, n, th int) *c20Path {
 	}
 	t.Fatalf("unknown kind %s", rc.kind)
 	return nil
+}
+
+// c20Verification: the VERIFICATION phase of a root-key rotation started with require_verification (sys/rotate/root/
+// verify, SealManager.VerifyRotation): the NEW shares are submitted; the rotation takes effect only once `threshold`
+// DISTINCT genuine new shares have been supplied. Same accounting, same model (`rotSubmit`), op lines of kind
+// `verify-root-shamir` with the new key as the secret.
+func c20Verification(t *testing.T, out *vh.Out, rng *vh.Rand) {
+	ctx := namespace.RootContext(context.Background())
+	ns := namespace.RootNamespace
+	cases := 40
+	if vh.Thorough() {
+		cases = 400
+	}
+	for ci, c := range [][2]int{{3, 2}, {5, 3}} {
+		n, th := c[0], c[1]
+		rc := c20NewRotCore(t, "root-shamir", n, th)
+		sm := rc.core.sealManager
+		for k := 0; k < cases; k++ {
+			r := rng.Fork(uint64(9000000 + ci*1000003 + k))
+			_ = sm.CancelRotation(ctx, ns.UUID, false)
+			if _, err := sm.InitRotation(ctx, ns, &SealConfig{Type: rc.core.seal.BarrierType().String(), SecretShares: n, SecretThreshold: th, VerificationRequired: true}, false); err != nil {
+				t.Fatalf("verify init: %v", err)
+			}
+			var result *RekeyResult
+			for i := 0; i < th; i++ {
+				res, err := sm.UpdateRotation(ctx, ns, append([]byte(nil), rc.shares[i]...), sm.rotationConfig(ns.UUID, false).Nonce, false)
+				if err != nil {
+					t.Fatalf("verify set-up update %d: %v", i, err)
+				}
+				result = res
+			}
+			if result == nil || !result.VerificationRequired || len(result.SecretShares) != n {
+				t.Fatalf("verify set-up: no verification phase: %+v", result)
+			}
+			newKey := append([]byte(nil), sm.rotationConfig(ns.UUID, false).VerificationKey...)
+			out.Reset()
+			var hist [][]byte
+			attempt := map[string]bool{}
+			steps := 2 + r.Intn(th+4)
+			for s := 0; s < steps; s++ {
+				var part []byte
+				sl := len(result.SecretShares[0])
+				switch x := r.Intn(100); {
+				case x < 45:
+					part = append([]byte(nil), result.SecretShares[r.Intn(n)]...)
+				case x < 75 && len(hist) > 0:
+					part = append([]byte(nil), hist[r.Intn(len(hist))]...) // a share submitted before
+				case x < 85:
+					part = append([]byte(nil), rc.shares[r.Intn(len(rc.shares))]...) // a share of the OLD key
+				default:
+					part = r.Bytes(sl)
+				}
+				hist = append(hist, part)
+				cf := sm.rotationConfig(ns.UUID, false)
+				ret, err := sm.VerifyRotation(ctx, ns, append(make([]byte, 0, len(part)+1), part...), cf.VerificationNonce, false)
+				cls := c20RotClass(ret != nil && ret.Complete, err)
+				p := 0
+				if cf2 := sm.rotationConfig(ns.UUID, false); cf2 != nil {
+					p = len(cf2.VerificationProgress)
+				}
+				if cls == "pending" {
+					cls = "pending:" + strconv.Itoa(p)
+				}
+				viol := ""
+				if attempt[string(part)] && cls != "dup" {
+					viol = "!QUORUM:the verification step accepted a share that had already been supplied in this attempt (" + cls + ": progress " + strconv.Itoa(p) + " with " + strconv.Itoa(len(attempt)) + " distinct share(s)): the threshold is not one of DISTINCT shares#c20-verify-duplicate-counted"
+				}
+				if cls != "dup" {
+					attempt[string(part)] = true
+				}
+				if cls == "verify-fail" || strings.HasPrefix(cls, "cerr") {
+					attempt = map[string]bool{}
+				}
+				out.Op(cls+";progress="+strconv.Itoa(p)+viol, "rotate", "verify-root-shamir", strconv.Itoa(th), "-", vh.Hex(newKey), vh.Hex(part))
+				if cls == "proceeds" {
+					rc.shares = result.SecretShares
+					break
+				}
+			}
+		}
+		_ = sm.CancelRotation(ctx, ns.UUID, false)
+	}
 }
 
 func c20Rotation(t *testing.T, out *vh.Out, rng *vh.Rand) {
